@@ -29,10 +29,12 @@ CountersAhead(e) == (\A g \in Genes(e) : g[1] <= e.ninn) /\ (\A o \in Muts(e) : 
 (* conformance with the outcome InnovPar assigns to this schedule *)
 ExpectedGenes(x) == IF x.m.kind = "link" THEN { <<x.inn, x.m.src, x.m.dst, IF x.m.rec THEN 1 ELSE 0>> }
                     ELSE { <<x.inn, x.m.src, x.node, IF x.m.rec THEN 1 ELSE 0>>, <<x.inn2, x.node, x.m.dst, 0>> }
-Conforms(e) ==
+ConformsModel(e) ==
     /\ e.followed /\ e.ninn = e.xninn /\ e.nnode = e.xnnode /\ Len(e.reg) = e.xreglen
     /\ \A t \in DOMAIN e.expect : Len(e.real[t]) = Len(e.expect[t])
          /\ \A i \in DOMAIN e.expect[t] : GenesOfMut(e.real[t][i]) = ExpectedGenes(e.expect[t][i])
+\* schedules found by exploring the code's own primitives carry no expectation
+Conforms(e) == IF "explored" \in DOMAIN e THEN TRUE ELSE ConformsModel(e)
 
 Init == l = 1
 Next == /\ l <= Len(Trace) /\ l' = l + 1
